@@ -323,6 +323,13 @@ LensR(p, pre, m, f, o, r) ==
                           <<o.q.owner, o.q.attMgr, o.q.pauser, o.q.tokCtl>> = <<o.post.owner, o.post.attMgr, o.post.pauser, o.post.tokCtl>>
     [] p = "C12" ->
          /\ BlockedBy(pre, m) => res # "ok"
+         \* stated directly: while burning-and-minting is paused nothing is minted, burnt or taken; while
+         \* sending-and-receiving is paused nothing is sent, replaced or received
+         /\ pre.pausedBM => /\ Ledger(o.post) = Ledger(pre)
+                            /\ OkCalls(o.calls, "Mint") = <<>> /\ OkCalls(o.calls, "Burn") = <<>>
+                            /\ EvsOf(o.evs, "MintAndWithdraw") = <<>> /\ EvsOf(o.evs, "DepositForBurn") = <<>>
+         /\ pre.pausedSR => /\ SentMsgs(o.evs) = <<>> /\ EvsOf(o.evs, "MessageReceived") = <<>>
+                            /\ o.post.used = pre.used /\ o.post.nextNonce = pre.nextNonce
          /\ <<o.post.pausedBM, o.post.pausedSR>> = <<r.post.pausedBM, r.post.pausedSR>>
          \* unnamed flows and administrative actions stay available: where the specification lets the transaction
          \* through although a flag is set and the code refuses it, the refusal must not be the pause's doing --
